@@ -477,7 +477,7 @@ def mutable_option_family(ctx: Ctx):
     ctx.exhaustive("allow_mutable_automata=True: every reference string of length ≤2 over {a,b} and over {a}, k ∈ {0,1,2}, "
                    "7 flag sets; ONE NFA per case, every word up to length |ref|+k+1 asked twice in shuffled orders, each "
                    "answer judged by the DP")
-    for _ in range(ctx.budget(150, 3000)):
+    for _ in range(ctx.budget(150, 1500)):
         alpha = list(rng.choice([("a", "b"), ("a",), ("a", "b", "c"), ("0", "1"), (".", "a")]))
         n = rng.randint(0, 5)
         ref = rng.choice(alpha) * n if rng.random() < 0.25 else "".join(rng.choice(alpha) for _ in range(n))
